@@ -1,5 +1,10 @@
 //@ props: C03,C16
 //@ target: src/observable.rs
+//@ thorough-subst: [u8; 3] ==> [u8; 6]
+//@ thorough-subst: kani::assume(n <= 3) ==> kani::assume(n <= 6)
+//@ thorough-subst: kani::unwind(6) ==> kani::unwind(9)
+//@ thorough-subst: kani::assume(k <= 4) ==> kani::assume(k <= 7)
+//@ thorough-note: at most 6 items
 // derived operators whose builders cast closures / nested fns to fn pointers (outside Verus):
 // all, ignore_elements, count, sum, min, max, reduce, element_at, first_or, last_or — checked
 // end to end on the real code against their documented list semantics, for every input history
